@@ -72,6 +72,35 @@ CLAIMED = {
         "Trusted: as C01; the regression inside the outlier models is an oracle (flagged ids recorded and replayed); isclose(.,0) modelled as = 0.",
         "DESIGN.md section 5 C09",
     ),
+    "C14": (
+        "Lean 4 theorems over Rat (floor/ceil/round arithmetic of the calibration split, fold for the gate) + bridge lemmas to definitions regenerated from source + exhaustive-in-n grid and API-level gate correspondence",
+        "minUnits_ge / train_at_least_one / cal_enough / qLevel_lt_one / split_ok / gauss_split / gate_iff are proved for every level in (0,1) "
+        "and every count at or above the minimum, robustly (any fraction up to 1/100 above the unrounded one). The formulas are re-translated "
+        "from /repo/src on every run (bridge lemmas by rfl); the implementation's floats are checked against hypotheses and conclusions on a "
+        "grid exhaustive in n; ModelClient runs at n = min-1 ... min+2 and larger for every estimator and unordered level lists are compared "
+        "with the gate model; duplicate ids must give the client error.",
+        "Trusted: Lean kernel + standard axioms; float vs exact by boundary rule; 'the run completes' is observed (solver is an oracle).",
+        "DESIGN.md section 5 C14",
+    ),
+    "C04": (
+        "Lean 4 theorems (scan over a score-sorted list: calibrated, minimal, exists, permutation invariant; robust clause; vote-space transfer) + stage-level correspondence of _compute_population_correction and get_unit_prediction_intervals",
+        "inside_iff_score_le / pop_calibrated / pop_minimal / pop_exists / pop_perm_invariant / robust_both / robust_calibrated / "
+        "vote_space_transfer hold for every list of (score, weight) pairs and every level. The real _compute_population_correction is driven "
+        "with adversarial lists (ties, negative corrections, shares hitting the level exactly) and the real get_unit_prediction_intervals end "
+        "to end; corrections and final bounds are compared with the model and the calibration statement is evaluated on every output.",
+        "Trusted: the lower/upper quantile regressions are oracles; exchangeability is an explicit assumption of the probabilistic clause "
+        "(partial: no finite run can exhibit a probability).",
+        "DESIGN.md section 5 C04",
+    ),
+    "C05": (
+        "Lean 4 theorems (weighted median minimises the weighted absolute loss and is its unique minimiser; closed form of the swing) + API-level correspondence with features=[]",
+        "wmed_minimises / wmed_unique / wmed_exists / wmed_perm_invariant / pinball_half / swing_closed_form: the first value whose running "
+        "weight exceeds half is the solution of the intercept-only tau=1/2 regression, unique when no running weight equals half, hence any "
+        "correct solver returns it. Covariate-free ModelClient runs (1-3 estimands, frames reused across calls) are compared unit by unit with "
+        "the closed form computed in exact arithmetic; the recorded solver call must be (ones, relative change, baseline+1, 0.5).",
+        "Trusted: solver correctness (validated by the diff); ties within 1e-6 of a rounding boundary skipped.",
+        "DESIGN.md section 5 C05",
+    ),
 }
 
 PENDING_REASON = "check not built yet in this session (model and correspondence in progress); not claimed until it is"
